@@ -43,8 +43,9 @@ type HarnessConfig struct {
 	Scale       string           `json:"scale"` // name of a scale set ("" = none)
 	Note        string           `json:"note"`
 	Bounds      string           `json:"bounds"`
-	Expect      string           `json:"expect"` // "violation" for vacuity witnesses
+	Expect      string           `json:"expect"`   // "violation" for vacuity witnesses
 	Concrete    int              `json:"concrete"` // number of concrete translator-validation runs
+	MaxSeconds  int              `json:"max_seconds"`
 }
 
 type ScaleRule struct {
@@ -72,7 +73,11 @@ func main() {
 	solver := flag.String("solver", "z3", "z3|z3-new|cvc5")
 	paramOverride := flag.String("params", "", "override: k=v,k=v (single instance)")
 	noReplay := flag.Bool("no-replay", false, "do not replay violations natively")
+	replayFile := flag.String("replay", "", "replay a recorded counterexample natively")
 	flag.Parse()
+	if *replayFile != "" {
+		os.Exit(replayMain(*replayFile, *verifDir))
+	}
 	if *prop == "" {
 		fmt.Fprintln(os.Stderr, "usage: gosym -prop C11 [-tier quick]")
 		os.Exit(2)
@@ -284,12 +289,15 @@ func (d *driver) explore(prog *interp.Program, insts []instance) []*result {
 				if in.h.Preemptions != nil {
 					lim.Preemptions = *in.h.Preemptions
 				}
+				if in.h.MaxSeconds > 0 {
+					lim.Deadline = time.Now().Add(time.Duration(in.h.MaxSeconds) * time.Second)
+				}
 				w.Lim = lim
 				r := w.ExploreInstance(fn, in.params, nil)
 				results[i] = &result{inst: in, res: r}
 				if d.verbose > 0 {
-					fmt.Printf("  %s %v: paths=%d completed=%d viol=%d inconc=%d queries=%d steps=%d %.2fs\n", in.h.Name, in.params,
-						r.Paths, r.Completed, len(r.Violations), len(r.Inconclusive), r.Queries, r.Steps, r.Wall)
+					fmt.Printf("  %s %v: paths=%d completed=%d viol=%d inconc=%d queries=%d (feas-unknown %d, fallbacks %d, solver %.1fs) steps=%d %.2fs\n", in.h.Name, in.params,
+						r.Paths, r.Completed, len(r.Violations), len(r.Inconclusive), r.Queries, r.FeasUnknown, r.Fallbacks, r.SolverTime, r.Steps, r.Wall)
 				}
 			}
 		}(wi)
